@@ -109,12 +109,16 @@ Definition class_core (s : str) : str :=
                end in
   concat (map cap_ascii (filter nonempty words)).
 
+(* the suffix test: keyword as it is ("None"), keyword / reserved name when lower-cased, or one of the typing names
+   the generated modules use unqualified (class_exact_names = ("Protocol", "Union"), F01k) *)
+Definition class_flag (c2 : str) : bool :=
+  let low := map lower_ascii c2 in
+  is_kw c2 || is_kw low || is_reserved low || mem_str c2 class_exact_names.
 Definition class_name (s : str) : str :=
   let c0 := class_core s in
   let c1 := match c0 with [] => s_unnamed_class | _ => c0 end in
   let c2 := if starts_digit c1 then 95 :: c1 else c1 in
-  let low := map lower_ascii c2 in
-  if is_kw c2 || is_kw low || is_reserved low then c2 ++ [95] else c2.
+  if class_flag c2 then c2 ++ [95] else c2.
 
 (* ---------- IRSchema.__post_init__ (ir.py): the name stored in an IRSchema ----------
    Before the F20k fix: always sanitize_class_name(name).  With it (post_init_keeps_output, read from the source by
